@@ -491,12 +491,7 @@ def check_definition(case, ctx):
     ctx.trace = {"maxL": L, "definition": [lo, hi], "log_part": [lp0, lp1], "norm_part": nm,
                  "best_realisation": best, "guard_events": ev.summary() if ev else None}
     if lossy:
-        ctx.exclude("a precision-loss guard event in the realisation whose parameters are "
-                    "returned (known finding psi-cancellation)")
-        ctx.label("excluded:precision_loss")
-        if not agree:
-            ctx.label("known:disagreement_after_precision_loss")
-        return
+        ctx.label("precision_loss_in_returned_realisation")
     if not agree:
         d = L - (lo if L < lo else hi)
         raise Violation(
